@@ -671,3 +671,440 @@ Proof.
       rewrite !len_app, len_repeat, len_firstn, len_skipn by (fold n; lia). fold n. lia. }
     rewrite Hfl, len_repeat. lia.
 Qed.
+
+(* ====================================================================== get_period_offsets *)
+Lemma np_index_ok site pbd k : idx_ok pbd k -> np_index site pbd k = Ok (wrap_get pbd k).
+Proof.
+  unfold idx_ok, np_index, wrap_get. intros H. destruct (k <? 0) eqn:E.
+  - apply getZ_ok. lia.
+  - apply getZ_ok. lia.
+Qed.
+
+Lemma np_index_oob site pbd k : ~ idx_ok pbd k -> np_index site pbd k = OOB site.
+Proof.
+  unfold idx_ok, np_index. intros H. pose proof (len_nonneg pbd). destruct (k <? 0) eqn:E.
+  - apply get_oob. lia.
+  - apply get_oob. lia.
+Qed.
+
+Lemma idx_ok_dec pbd k : idx_ok pbd k \/ ~ idx_ok pbd k.
+Proof. unfold idx_ok. lia. Qed.
+
+Lemma map_res_ok {A B} (f:A -> res B) (g:A -> B) l :
+  (forall x, In x l -> f x = Ok (g x)) -> map_res f l = Ok (map g l).
+Proof.
+  induction l as [|x t IH]; intros H; [reflexivity|]. cbn [map_res map].
+  rewrite (H x (or_introl eq_refl)). cbn [bind]. rewrite IH by (intros y Hy; apply H; right; exact Hy).
+  reflexivity.
+Qed.
+
+Lemma map_res_oob {A B} (f:A -> res B) (g:A -> B) s l :
+  (forall x, In x l -> f x = Ok (g x) \/ f x = OOB s) ->
+  (exists x, In x l /\ f x = OOB s) -> map_res f l = OOB s.
+Proof.
+  induction l as [|x t IH]; intros H [y [Hy Hf]]; [destruct Hy|]. cbn [map_res].
+  destruct (H x (or_introl eq_refl)) as [Hx|Hx]; rewrite Hx; cbn [bind]; [|reflexivity].
+  destruct Hy as [<-|Hy]; [congruence|].
+  rewrite IH; [reflexivity| |].
+  - intros z Hz. apply H. right. exact Hz.
+  - exists y. split; assumption.
+Qed.
+
+Lemma np_index_cases site pbd k :
+  np_index site pbd k = Ok (wrap_get pbd k) \/ np_index site pbd k = OOB site.
+Proof.
+  destruct (idx_ok_dec pbd k) as [H|H]; [left; apply np_index_ok|right; apply np_index_oob]; exact H.
+Qed.
+
+Lemma period_offsets_noflags_ok pbd days :
+  (forall d, In d days -> idx_ok pbd d) ->
+  get_period_offsets pbd days None = Ok (map (wrap_get pbd) days).
+Proof. intros H. cbn [get_period_offsets]. apply map_res_ok. intros d Hd. apply np_index_ok. auto. Qed.
+
+Lemma period_offsets_noflags_oob pbd days :
+  (exists d, In d days /\ ~ idx_ok pbd d) ->
+  get_period_offsets pbd days None = OOB 1.
+Proof.
+  intros [d [Hd Hn]]. cbn [get_period_offsets]. apply (map_res_oob _ (wrap_get pbd)).
+  - intros x _. apply np_index_cases.
+  - exists d. split; [exact Hd|]. apply np_index_oob. exact Hn.
+Qed.
+
+Lemma scatter_spec pbd days : forall fl, length fl = length days ->
+  scatter days fl (map (wrap_get pbd) (mask days fl)) = offsets_spec pbd days fl.
+Proof.
+  unfold offsets_spec. induction days as [|d days IH]; intros [|b fl] H; cbn in *; try reflexivity; try lia.
+  destruct b; cbn; f_equal; apply IH; lia.
+Qed.
+
+Lemma mask_In (days:list Z) : forall fl d, In d (mask days fl) <-> In (d, true) (combine days fl).
+Proof.
+  induction days as [|x days IH]; intros [|b fl] d; cbn; try tauto.
+  destruct b; cbn; rewrite IH; split.
+  - intros [->|H]; [left; reflexivity|right; exact H].
+  - intros [H|H]; [left; congruence|right; exact H].
+  - intros H; right; exact H.
+  - intros [H|H]; [discriminate|exact H].
+Qed.
+
+Lemma period_offsets_flags_ok pbd days fl :
+  length fl = length days -> offsets_pre pbd days fl ->
+  get_period_offsets pbd days (Some fl) = Ok (offsets_spec pbd days fl).
+Proof.
+  intros Hl Hpre. cbn [get_period_offsets]. unfold len. rewrite Hl, Z.eqb_refl. cbn [orb].
+  rewrite (map_res_ok _ (wrap_get pbd)).
+  - cbn [bind]. f_equal. apply scatter_spec. exact Hl.
+  - intros x Hx. apply np_index_ok. apply Hpre. apply mask_In. exact Hx.
+Qed.
+
+Lemma period_offsets_flags_oob pbd days fl :
+  length fl = length days ->
+  (exists d, In (d, true) (combine days fl) /\ ~ idx_ok pbd d) ->
+  get_period_offsets pbd days (Some fl) = OOB 2.
+Proof.
+  intros Hl [d [Hin Hn]]. cbn [get_period_offsets]. unfold len. rewrite Hl, Z.eqb_refl. cbn [orb].
+  rewrite (map_res_oob _ (wrap_get pbd) 2); [reflexivity| |].
+  - intros x _. apply np_index_cases.
+  - exists d. split; [apply mask_In; exact Hin|apply np_index_oob; exact Hn].
+Qed.
+
+(* a mask of the wrong length is rejected (except numpy's empty-mask quirk) *)
+Lemma period_offsets_flags_mismatch pbd days fl :
+  length fl <> length days -> fl <> [] ->
+  get_period_offsets pbd days (Some fl) = Raise E_IndexError.
+Proof.
+  intros Hl Hne. cbn [get_period_offsets]. unfold len.
+  replace (Z.of_nat (length fl) =? Z.of_nat (length days)) with false by lia.
+  replace (Z.of_nat (length fl) =? 0) with false; [reflexivity|].
+  destruct fl; [congruence|]. cbn [length]. symmetry. apply Z.eqb_neq. lia.
+Qed.
+
+(* the precondition, read index-wise *)
+Lemma offsets_pre_iff pbd days fl : length fl = length days ->
+  (offsets_pre pbd days fl <->
+   forall j, (j < length days)%nat -> nth j fl false = true -> idx_ok pbd (nth j days 0)).
+Proof.
+  intros Hl. unfold offsets_pre. split.
+  - intros H j Hj Hf. apply H. rewrite <- Hf. rewrite <- combine_nth by lia.
+    apply nth_In. rewrite combine_length. lia.
+  - intros H d Hin. apply (In_nth _ _ (0, false)) in Hin. destruct Hin as [j [Hj Hnth]].
+    rewrite combine_length in Hj. rewrite combine_nth in Hnth by lia. injection Hnth as <- Hf.
+    apply H; [lia|exact Hf].
+Qed.
+
+Lemma offsets_spec_length pbd days fl : length fl = length days ->
+  length (offsets_spec pbd days fl) = length days.
+Proof. intros H. unfold offsets_spec. rewrite map_length, combine_length. lia. Qed.
+
+Lemma offsets_spec_nth pbd days fl j : length fl = length days -> (j < length days)%nat ->
+  nth j (offsets_spec pbd days fl) 0 =
+  if nth j fl false then wrap_get pbd (nth j days 0) else -1.
+Proof.
+  intros Hl Hj. unfold offsets_spec.
+  rewrite (nth_map_lt _ _ _ (0, false)) by (rewrite combine_length; lia).
+  rewrite combine_nth by lia. reflexivity.
+Qed.
+
+Lemma wrap_get_In pbd k : idx_ok pbd k -> In (wrap_get pbd k) pbd.
+Proof.
+  unfold idx_ok, wrap_get, nthZ, nthd, len. intros H. apply nth_In. destruct (k <? 0) eqn:E; lia.
+Qed.
+
+(* -1 marks exactly the entries whose flag is off (period indices are never negative) *)
+Lemma offsets_minus1_iff pbd days fl j :
+  length fl = length days -> offsets_pre pbd days fl -> (forall v, In v pbd -> 0 <= v) ->
+  (j < length days)%nat ->
+  (nth j (offsets_spec pbd days fl) 0 = -1 <-> nth j fl false = false).
+Proof.
+  intros Hl Hpre Hnn Hj. rewrite offsets_spec_nth by assumption.
+  destruct (nth j fl false) eqn:E; [|tauto].
+  pose proof (proj1 (offsets_pre_iff pbd days fl Hl) Hpre) as Hpre'.
+  specialize (Hnn _ (wrap_get_In pbd _ (Hpre' j Hj E))). split; [lia|discriminate].
+Qed.
+
+(* ====================================================================== compositions *)
+Lemma wrap_get_nonneg pbd k : 0 <= k -> wrap_get pbd k = nthZ pbd k.
+Proof. intros H. unfold wrap_get. replace (k <? 0) with false by lia. reflexivity. Qed.
+
+(* map + offsets, with flags: the statement of the property for non-decreasing boundaries *)
+Lemma period_offsets_halfopen_proof dlen periods days fl :
+  0 < dlen -> periods <> [] -> sorted periods -> length fl = length days ->
+  let ds := deltas_spec dlen periods in
+  (forall j, (j < length days)%nat -> nth j fl false = true -> 0 <= nth j days 0 < last ds 0) ->
+  exists m r, generate_period_offset_map dlen periods = Ok m /\
+    get_period_offsets m days (Some fl) = Ok r /\ length r = length days /\
+    forall j, (j < length days)%nat ->
+      (nth j fl false = false -> nth j r 0 = -1) /\
+      (nth j fl false = true ->
+         (0 <= nth j r 0 < len ds - 1 /\ in_period ds (nth j r 0) (nth j days 0)) /\
+         forall i, 0 <= i < len ds - 1 -> (nth j r 0 = i <-> in_period ds i (nth j days 0))).
+Proof.
+  intros Hd Hne Hs Hl ds Hin.
+  destruct (period_map_halfopen_proof dlen periods Hd Hne Hs) as [m [Hm [_ [Hlen [Hcov Hiff]]]]].
+  fold ds in Hlen, Hcov, Hiff.
+  assert (Hpre : offsets_pre m days fl).
+  { apply (offsets_pre_iff _ _ _ Hl). intros j Hj Hf. specialize (Hin j Hj Hf). unfold idx_ok. lia. }
+  exists m, (offsets_spec m days fl). split; [exact Hm|]. split; [apply period_offsets_flags_ok; assumption|].
+  split; [apply offsets_spec_length; exact Hl|].
+  intros j Hj. rewrite offsets_spec_nth by assumption. split.
+  - intros ->. reflexivity.
+  - intros Hf. rewrite Hf. specialize (Hin j Hj Hf). rewrite wrap_get_nonneg by lia. split.
+    + apply Hcov. lia.
+    + intros i Hi. apply Hiff; lia.
+Qed.
+
+(* map + offsets, without flags: every day must be a day of the map *)
+Lemma period_offsets_noflags_halfopen_proof dlen periods days :
+  0 < dlen -> periods <> [] -> sorted periods ->
+  let ds := deltas_spec dlen periods in
+  (forall d, In d days -> 0 <= d < last ds 0) ->
+  exists m r, generate_period_offset_map dlen periods = Ok m /\
+    get_period_offsets m days None = Ok r /\ length r = length days /\
+    forall j, (j < length days)%nat ->
+      forall i, 0 <= i < len ds - 1 -> (nth j r 0 = i <-> in_period ds i (nth j days 0)).
+Proof.
+  intros Hd Hne Hs ds Hin.
+  destruct (period_map_halfopen_proof dlen periods Hd Hne Hs) as [m [Hm [_ [Hlen [Hcov Hiff]]]]].
+  fold ds in Hlen, Hcov, Hiff.
+  exists m, (map (wrap_get m) days). split; [exact Hm|]. split.
+  - apply period_offsets_noflags_ok. intros d Hdd. specialize (Hin d Hdd). unfold idx_ok. lia.
+  - split; [apply map_length|]. intros j Hj i Hi.
+    rewrite (nth_map_lt _ _ _ 0) by lia. specialize (Hin _ (nth_In days 0 Hj)).
+    rewrite wrap_get_nonneg by lia. apply Hiff; lia.
+Qed.
+
+(* a flagged day is never negative: the origin is the start, or the minimum of the selected *)
+Lemma flagged_day_nonneg dlen ts f s e o j :
+  0 < dlen -> length f = length ts -> origin_spec ts f s o -> (j < length ts)%nat ->
+  nth j (flags_spec ts f s e) false = true -> 0 <= nth j (days_spec dlen o ts) 0.
+Proof.
+  intros Hd Hl Ho Hj Hf. rewrite flags_spec_nth in Hf by assumption. rewrite days_spec_nth by exact Hj.
+  apply Z.div_pos; [|exact Hd].
+  apply andb_prop in Hf. destruct Hf as [Hf _]. apply andb_prop in Hf. destruct Hf as [Hfj Hge].
+  destruct s as [sd|]; cbn in Ho, Hge.
+  - subst o. lia.
+  - destruct Ho as [_ Hmin]. assert (Hin : In (nth j ts 0) (selected ts f)).
+    { apply selected_In. exists j. auto. }
+    specialize (Hmin _ Hin). lia.
+Qed.
+
+(* ---- get_periods followed by generate_period_offset_map ---- *)
+Lemma arith_prog_last s td n : last (arith_prog s td (S n)) 0 = s + Z.of_nat n * td.
+Proof.
+  rewrite last_nthZ by (rewrite arith_prog_S; discriminate).
+  unfold len. rewrite arith_prog_length. rewrite arith_prog_nth by lia. f_equal. f_equal. lia.
+Qed.
+
+Lemma arith_prog_head s td n : nthZ (arith_prog s td (S n)) 0 = s.
+Proof. rewrite arith_prog_nth by lia. lia. Qed.
+
+(* F-C20b: the boundaries get_periods produces for a negative delta (two or more of them) are
+   rejected by generate_period_offset_map *)
+Lemma descending_periods_raise_proof dlen s e unit delta l :
+  0 < dlen -> 0 < unit -> delta < 0 -> 1 <= periods_n s e (unit * delta) ->
+  periods_spec s e unit delta = Ok l ->
+  generate_period_offset_map dlen l = Raise E_ValueError.
+Proof.
+  intros Hd Hu Hdel Hn H. unfold periods_spec in H. destruct (periods_bad s e delta); [discriminate|].
+  injection H as <-. set (n := Z.to_nat (periods_n s e (unit * delta))).
+  destruct (period_map_errors_proof dlen (arith_prog s (unit * delta) (S n)) Hd) as [_ [Hr _]].
+  apply Hr.
+  - rewrite arith_prog_S. discriminate.
+  - rewrite arith_prog_last, arith_prog_head. assert (1 <= Z.of_nat n) by (unfold n; lia).
+    assert (unit * delta < 0) by nia. nia.
+Qed.
+
+Lemma arith_prog_sorted s td n : 0 <= td -> sorted (arith_prog s td n).
+Proof.
+  intros Htd i j Hi Hij Hj. unfold len in Hj. rewrite arith_prog_length in Hj.
+  rewrite !arith_prog_nth by lia. nia.
+Qed.
+
+Lemma deltas_arith_prog dlen s w n : 0 < dlen ->
+  deltas_spec dlen (arith_prog s (w * dlen) (S n)) = arith_prog 0 w (S n).
+Proof.
+  intros Hd. unfold deltas_spec. rewrite arith_prog_head. unfold arith_prog. rewrite map_map.
+  apply map_ext. intros k.
+  replace (s + Z.of_nat k * (w * dlen) - s) with (Z.of_nat k * w * dlen) by lia.
+  rewrite Z.div_mul by lia. lia.
+Qed.
+
+(* ascending boundaries spaced W whole days apart: the map is d |-> d / W on [0, n*W) *)
+Lemma period_map_of_progression_proof dlen s w n :
+  0 < dlen -> 0 < w ->
+  exists m, generate_period_offset_map dlen (arith_prog s (w * dlen) (S n)) = Ok m /\
+    len m = Z.of_nat n * w /\ forall d, 0 <= d < len m -> nthZ m d = d / w.
+Proof.
+  intros Hd Hw. set (l := arith_prog s (w * dlen) (S n)).
+  assert (Hne : l <> []) by (unfold l; rewrite arith_prog_S; discriminate).
+  assert (Hs : sorted l) by (apply arith_prog_sorted; nia).
+  destruct (period_map_halfopen_proof dlen l Hd Hne Hs) as [m [Hm [_ [Hlen [Hcov _]]]]].
+  unfold l in Hlen, Hcov. rewrite deltas_arith_prog in Hlen, Hcov by exact Hd.
+  rewrite arith_prog_last in Hlen.
+  exists m. split; [exact Hm|]. split; [lia|]. intros d Hdm. destruct (Hcov d Hdm) as [Hr Hin].
+  unfold len in Hr. rewrite arith_prog_length in Hr. unfold in_period in Hin.
+  rewrite !arith_prog_nth in Hin by lia.
+  apply (Z.div_unique_pos d w (nthZ m d) (d - nthZ m d * w)); lia.
+Qed.
+
+(* ---- the whole pipeline of the docstring:
+        periods = get_periods(start, end, unit, delta > 0)
+        days, in_range = get_days(ts, filter, start, end')       (end' not after the last boundary)
+        get_period_offsets(generate_period_offset_map(periods), days, in_range)
+      yields, for every timestamp, the index of the period [start + i*td, start + (i+1)*td) that
+      contains it when it passes the filter and lies in [start, end'), and -1 otherwise *)
+Lemma pipeline_proof dlen u delta s e e' ts flt fuel :
+  0 < dlen -> 0 < u -> 0 < delta -> s <= e ->
+  let unit := u * dlen in
+  let td := unit * delta in
+  let n := periods_n s e td in
+  let f := eff_filter ts flt in
+  length f = length ts -> e' <= s + n * td ->
+  (fuel >= periods_fuel s e unit delta)%nat ->
+  exists l m days fl r,
+    get_periods fuel s e unit delta = Ok l /\
+    generate_period_offset_map dlen l = Ok m /\
+    get_days dlen ts flt (Some s) (Some e') = Ok (days, Some fl) /\
+    get_period_offsets m days (Some fl) = Ok r /\
+    r = map (fun p => if flag_at (Some s) (Some e') (fst p) (snd p) then (fst p - s) / td else -1)
+            (combine ts f).
+Proof.
+  intros Hd Hu Hdel Hse unit td n f Hl He' Hfuel.
+  assert (Hunit : 0 < unit) by (unfold unit; nia).
+  assert (Htd : 0 < td) by (unfold td; nia).
+  pose proof (periods_n_up s e td Htd Hse) as [Hn0 Hnb]. fold n in Hn0, Hnb.
+  set (w := u * delta). assert (Hw : 0 < w) by (unfold w; nia).
+  assert (Htdw : td = w * dlen) by (unfold td, unit, w; lia).
+  (* periods *)
+  assert (Hper : get_periods fuel s e unit delta = Ok (arith_prog s td (S (Z.to_nat n)))).
+  { rewrite get_periods_spec_eq by assumption. unfold periods_spec.
+    replace (periods_bad s e delta) with false; [reflexivity|].
+    symmetry. apply not_true_is_false. intros Hb. apply periods_bad_iff in Hb. lia. }
+  (* map *)
+  destruct (period_map_of_progression_proof dlen s w (Z.to_nat n) Hd Hw) as [m [Hm [Hlm Hmd]]].
+  rewrite <- Htdw in Hm. rewrite Z2Nat.id in Hlm by lia.
+  (* days *)
+  pose proof (get_days_ok dlen ts flt (Some s) (Some e') s Hl eq_refl) as Hgd. fold f in Hgd.
+  replace (no_args flt (Some s) (Some e')) with false in Hgd by (destruct flt; reflexivity).
+  set (days := days_spec dlen s ts) in *. set (fl := flags_spec ts f (Some s) (Some e')) in *.
+  assert (Hldays : length days = length ts) by (unfold days, days_spec; apply map_length).
+  assert (Hlfl : length fl = length days).
+  { unfold fl. rewrite flags_spec_length by exact Hl. lia. }
+  (* flagged timestamps lie in [s, e'), hence their day is a day of the map *)
+  assert (Hflag : forall j, (j < length ts)%nat -> nth j fl false = true ->
+                            s <= nth j ts 0 < e').
+  { intros j Hj Hf. unfold fl in Hf. rewrite flags_spec_nth in Hf by assumption.
+    apply andb_prop in Hf. destruct Hf as [Hf Hlt]. apply andb_prop in Hf. destruct Hf as [_ Hge].
+    cbn in Hge, Hlt. lia. }
+  assert (Hday : forall j, (j < length ts)%nat -> nth j fl false = true ->
+                           0 <= nth j days 0 < n * w).
+  { intros j Hj Hf. specialize (Hflag j Hj Hf). unfold days. rewrite days_spec_nth by exact Hj. split.
+    - apply Z.div_pos; lia.
+    - apply Z.div_lt_upper_bound; [exact Hd|]. rewrite Htdw in He'. nia. }
+  assert (Hpre : offsets_pre m days fl).
+  { apply (offsets_pre_iff _ _ _ Hlfl). intros j Hj Hf. rewrite Hldays in Hj.
+    specialize (Hday j Hj Hf). unfold idx_ok. lia. }
+  exists (arith_prog s td (S (Z.to_nat n))), m, days, fl, (offsets_spec m days fl).
+  split; [exact Hper|]. split; [exact Hm|]. split; [exact Hgd|].
+  split; [apply period_offsets_flags_ok; assumption|].
+  (* pointwise equality of the two lists *)
+  apply (nth_ext _ _ 0 0).
+  - rewrite offsets_spec_length by exact Hlfl. rewrite map_length, combine_length. lia.
+  - intros j Hj. rewrite offsets_spec_length in Hj by exact Hlfl. rewrite Hldays in Hj.
+    rewrite offsets_spec_nth by (try exact Hlfl; lia).
+    rewrite (nth_map_lt _ _ _ (0, false)) by (rewrite combine_length; lia).
+    rewrite combine_nth by lia. cbn [fst snd].
+    assert (Hfj : nth j fl false = flag_at (Some s) (Some e') (nth j ts 0) (nth j f false)).
+    { unfold fl. rewrite flags_spec_nth by assumption. reflexivity. }
+    rewrite <- Hfj. destruct (nth j fl false) eqn:Ef; [|reflexivity].
+    specialize (Hday j Hj Ef). rewrite wrap_get_nonneg by lia. rewrite Hmd by lia.
+    unfold days. rewrite days_spec_nth by exact Hj. rewrite Z.div_div by lia.
+    rewrite Htdw. f_equal. lia.
+Qed.
+
+(* ====================================================================== filters of the wrong length
+   (outside the property: recorded because the model follows numpy here and the correspondence
+   run exercises it) *)
+Lemma bcast_left1 {A B C} (f:A -> B -> C) a lb : length lb <> 1%nat ->
+  bcast f [a] lb = Ok (map (f a) lb).
+Proof.
+  intros H. unfold bcast, len. cbn [length].
+  replace (Z.of_nat 1 =? Z.of_nat (length lb)) with false by (symmetry; apply Z.eqb_neq; lia). reflexivity.
+Qed.
+
+Lemma bcast_right1 {A B C} (f:A -> B -> C) la b : length la <> 1%nat ->
+  bcast f la [b] = Ok (map (fun a => f a b) la).
+Proof.
+  intros H. unfold bcast, len. cbn [length].
+  replace (Z.of_nat (length la) =? Z.of_nat 1) with false by (symmetry; apply Z.eqb_neq; lia).
+  destruct la as [|x [|y t]]; cbn in *; try reflexivity; lia.
+Qed.
+
+Lemma bcast_bad {A B C} (f:A -> B -> C) la lb :
+  length la <> length lb -> length la <> 1%nat -> length lb <> 1%nat ->
+  bcast f la lb = Raise E_ValueError.
+Proof.
+  intros H Ha Hb. unfold bcast, len.
+  replace (Z.of_nat (length la) =? Z.of_nat (length lb)) with false by (symmetry; apply Z.eqb_neq; lia).
+  destruct la as [|x [|y t]]; destruct lb as [|u [|v r]]; cbn in *; try reflexivity; lia.
+Qed.
+
+Lemma get_days_some_filter dlen ts f s e :
+  get_days dlen ts (Some f) s e = gd_body dlen ts (Some f) s e.
+Proof. rewrite get_days_unfold. reflexivity. Qed.
+
+Lemma get_days_mismatch_nostart_proof dlen ts f e :
+  length f <> length ts ->
+  get_days dlen ts (Some f) None e = if (length f =? 0)%nat then Raise E_ValueError else Raise E_IndexError.
+Proof.
+  intros Hl. rewrite get_days_some_filter. unfold gd_body, len.
+  replace (Z.of_nat (length f) =? Z.of_nat (length ts)) with false by (symmetry; apply Z.eqb_neq; lia).
+  destruct f as [|b f]; cbn [length Nat.eqb].
+  - cbn. destruct ts; reflexivity.
+  - replace (Z.of_nat (S (length f)) =? 0) with false by (symmetry; apply Z.eqb_neq; lia). reflexivity.
+Qed.
+
+Lemma get_days_mismatch_start_bad_proof dlen ts f sd e :
+  length f <> length ts -> length f <> 1%nat -> length ts <> 1%nat ->
+  get_days dlen ts (Some f) (Some sd) e = Raise E_ValueError.
+Proof.
+  intros Hl Hf Ht. rewrite get_days_some_filter. unfold gd_body.
+  rewrite bcast_bad by (rewrite ?map_length; assumption). reflexivity.
+Qed.
+
+Lemma flags_repeat (b:bool) s e ts :
+  map (fun t => flag_at s e t b) ts = flags_spec ts (repeat b (length ts)) s e.
+Proof.
+  unfold flags_spec. induction ts as [|t ts IH]; cbn; [reflexivity|]. f_equal. exact IH.
+Qed.
+
+(* a length-1 filter is stretched over the whole field *)
+Lemma get_days_broadcast_filter_proof dlen ts b sd e :
+  length ts <> 1%nat ->
+  get_days dlen ts (Some [b]) (Some sd) e =
+  Ok (days_spec dlen sd ts, Some (flags_spec ts (repeat b (length ts)) (Some sd) e)).
+Proof.
+  intros Ht. rewrite get_days_some_filter. unfold gd_body.
+  rewrite bcast_left1 by (rewrite map_length; exact Ht). cbn [bind]. rewrite map_map.
+  rewrite <- flags_repeat. unfold flag_at. destruct e as [ed|]; cbn [geb_opt ltb_opt].
+  - rewrite bcast_same by (rewrite !map_length; reflexivity). cbn [bind].
+    rewrite and_flags by (rewrite map_length; reflexivity).
+    assert (Hx : forall (g:Z -> bool) (k:Z -> bool -> bool) l,
+               map (fun p => k (fst p) (snd p)) (combine l (map g l)) = map (fun t => k t (g t)) l).
+    { intros g k l. induction l as [|x l IH]; cbn; [reflexivity|]. f_equal. exact IH. }
+    rewrite (Hx (fun t => b && (sd <=? t)) (fun t c => c && (t <? ed))). reflexivity.
+  - cbn [bind]. do 3 f_equal. apply map_ext. intros t. rewrite andb_true_r. reflexivity.
+Qed.
+
+(* a one-element field is stretched over the whole filter (days has length 1, the flags
+   the length of the filter) *)
+Lemma get_days_broadcast_field_proof dlen t f sd e :
+  length f <> 1%nat ->
+  get_days dlen [t] (Some f) (Some sd) e =
+  Ok ([(t - sd) / dlen], Some (map (fun b => flag_at (Some sd) e t b) f)).
+Proof.
+  intros Hf. rewrite get_days_some_filter. unfold gd_body. cbn [map].
+  rewrite bcast_right1 by exact Hf. cbn [bind]. unfold flag_at. destruct e as [ed|]; cbn [geb_opt ltb_opt].
+  - rewrite bcast_right1 by (rewrite map_length; exact Hf). cbn [bind]. rewrite map_map. reflexivity.
+  - cbn [bind]. unfold day_of. do 3 f_equal. apply map_ext. intros b. rewrite andb_true_r. reflexivity.
+Qed.
